@@ -124,7 +124,15 @@ def main():
     # windows
     import itertools
     for cw, sw in (itertools.product(range(1, 9), repeat=2) if thorough else [(1, 1), (1, 8), (8, 1), (4, 3), (8, 8), (2, 5)]):
-        cfgs.append(("windows", Cfg(c_max=50, s_max=50, req_size=600, rsp_size=600, c_win=cw, s_win=sw)))
+        # (one retry is enough to repair one fault: retry counts 1..3)
+        cfgs.append(("windows", Cfg(c_max=50, s_max=50, req_size=600, rsp_size=600, c_win=cw, s_win=sw, retries=rng.choice([1, 1, 2, 3]))))
+    # a slow wire: transfers with window 1 that take much longer than four segment timeouts, nothing lost - the receiver's
+    # watchdog has to be re-armed by every segment
+    for direction in ("request", "response"):
+        for nseg in ((60, 120) if not thorough else (60, 120, 200)):
+            size = nseg * 40
+            kw = dict(c_max=50, s_max=50, c_maxsegs=None, s_maxsegs=None, c_win=1, s_win=1, retries=rng.choice([1, 3]))
+            cfgs.append(("slow-wire-window-1", Cfg(req_size=size if direction == "request" else 3, rsp_size=size if direction == "response" else 3, **kw)))
     # long transfers (sequence number wrap)
     for nseg in ([255, 256, 257, 300, 600] if thorough else [256, 257, 300]):
         for direction in ("request", "response"):
@@ -137,6 +145,13 @@ def main():
     for label, cfg in cfgs:
         idx += 1
         if not run.mine(idx):
+            continue
+        if label == "slow-wire-window-1":
+            nseg = max(cfg.req_size, cfg.rsp_size) // 40
+            lat = rng.choice([0.05, 0.1])
+            run.case(("slow", idx, lat, repr(sorted(cfg.describe().items()))), sample={"config_class": label, "segments": nseg, "one_way_latency": lat}, sample_key=("slow",))
+            run.count("slow_wire_transfers")
+            evaluate(run, label, cfg, Plan(latency=lat, latency_budget=2.2 * lat * (nseg + 10)), single=True)
             continue
         base = evaluate(run, label, cfg, Plan(), single=True)
         F = len(base.lan.frames) - base.lan.frames_before
